@@ -106,7 +106,7 @@ def gen_input_from(rng, TABLES, COLUMNS, QNAMES, benign):
     return out
 
 
-HEADER = "From Verif Require Import Spec.GoPkgWf Model.GoGen Judge.J01.\nOpen Scope string_scope. Open Scope list_scope.\n"
+HEADER = "From Verif Require Import Spec.GoPkgWf Model.GoGen Model.GoEnums Model.GoModels Judge.J01.\nOpen Scope string_scope. Open Scope list_scope.\n"
 WF_CLASS = {1: "duplicate_top_level_identifier", 2: "duplicate_method_or_field", 3: "qualifier_used_but_not_imported",
             4: "import_not_used", 5: "parameter_or_local_declared_twice", 6: "parameter_or_local_shadows_a_package",
             7: "parameter_or_local_declared_twice"}
@@ -161,6 +161,14 @@ def j01_gen_coq(g):
     qs = coqlist(["(%s, %s)" % (query_coq(x), coqstr(x["filename"])) for x in g["compiled"]])
     obs = coqlist(["(mkQO %s %s %s %s %s)" % (coqstr(x["method"]), coqstr(x["cmd"]), coqstr(x["source"]), vo_coq(x["ret"]), vo_coq(x["arg"])) for x in g["queries"]])
     return "(j01_gen %s %s %s %s %s)" % (settings_coq(g["settings"]), catalog_coq(g["catalog"]), coqlist([gst_coq(x) for x in g["structs"]]), qs, obs)
+
+
+def j01_models_coq(g):
+    """buildStructs / buildEnums: catalog + settings -> model structs (fields) and enum declarations (hook) vs Model/GoModels, Model/GoEnums"""
+    from qcommon import catalog_coq
+    enums = coqlist(["(mkGE %s %s)" % (coqstr(e["name"]), coqlist(["(%s, %s)" % (coqstr(k), coqstr(v)) for k, v in e["consts"]])) for e in g.get("enums", [])])
+    return "(j01_models %s %s %s %s %s)" % (settings_coq(g["settings"]), catalog_coq(g["catalog"]), coqbool(g["settings"].get("exact_table_names")),
+                                            coqlist([gst_coq(x) for x in g["structs"]]), enums)
 
 
 def pkg_coq(summary):
@@ -315,6 +323,14 @@ def run(tier, seed):
                     k = v[0] - 1
                     rep.violation("correspondence corr:C01:buildQueries broken: the Arg / Ret values golang.buildQueries hands to the templates differ from Model/GoGen.build_queries (query #%d by method name)" % v[0],
                                   dict(inputs[i], generator_value=g["queries"][k] if k < len(g["queries"]) else None, verdict=v[0]), no_input=True)
+            # ... and buildStructs / buildEnums (fields of every model struct, enum declarations with their constants)
+            what = {1: "the number of model structs", 2: "the fields of a model struct", 3: "the name of a model struct (emit_exact_table_names)",
+                    4: "the enum declarations", 98: "(the model panics)", 99: "(the model fails)"}
+            for (i, g), v in zip(gok, coq_eval(HEADER, [j01_models_coq(g) for _, g in gok], tag="c01models")):
+                rep.count("buildStructs/buildEnums:%s" % ("model=code" if v[0] == 0 else "differ"))
+                if v[0] != 0:
+                    rep.violation("correspondence corr:C01:buildStructs broken: %s differ(s) between golang.buildStructs / buildEnums and Model/GoModels, Model/GoEnums" % what.get(v[0], v[0]),
+                                  dict(inputs[i], structs=g["structs"], enums=g.get("enums"), verdict=v[0]), no_input=True)
             rep.count("compiles", len(pk) - len(errs))
             rep.count("does-not-compile", len(errs))
     finally:
